@@ -218,6 +218,35 @@ pub fn wrapfull_inputs() -> Vec<(Input, usize)> {
     v
 }
 
+/// Inputs that bring the compressor's 64 KiB LZ code buffer to within a few bytes of its capacity
+/// at the moment the lazy parser records *two* symbols in one step (a deferred literal and a match
+/// of 128+ bytes): ~58 000 bytes of noise (one code byte each, plus a flag byte per 8 symbols),
+/// swept byte by byte so that every fill level and flag phase occurs (after a 3000-byte run that keeps the block from being cut early), then "abc" ++ W where
+/// "abcQ" (3-byte match, deferred) and "bc" ++ W (202-byte match one position later) lie in the window.
+pub fn lzbuf_edge_inputs(thorough: bool) -> Vec<Input> {
+    let mut v = vec![];
+    let mut l = crate::util::Lcg(0x1b0f ^ crate::util::seed());
+    let noise: Vec<u8> = (0..60_000).map(|_| 0x80 | (l.byte() & 0x7f)).collect();
+    let w: Vec<u8> = (0..200).map(|_| 0x20 + (l.byte() % 0x5f)).collect();
+    let (lo, hi, step) = if thorough { (55_300usize, 56_100usize, 1usize) } else { (55_500, 55_960, 2) };
+    for n1 in (lo..hi).step_by(step) {
+        // (a run first: its few codes stand for many bytes, so the block never looks "fat" and is
+        // not cut at 31 KiB but only when the code buffer is full)
+        let mut d: Vec<u8> = vec![0u8; 3000];
+        d.extend_from_slice(&noise[..n1]);
+        d.extend_from_slice(b"bc");
+        d.extend_from_slice(&w);
+        d.extend_from_slice(&noise[n1..n1 + 300]);
+        d.extend_from_slice(b"abcQ");
+        d.extend_from_slice(&noise[n1 + 300..n1 + 2300]);
+        d.extend_from_slice(b"abc");
+        d.extend_from_slice(&w);
+        d.extend_from_slice(&noise[n1 + 2300..n1 + 2350]);
+        v.push(Input { name: format!("lzbuf-edge:n{}", n1), data: d });
+    }
+    v
+}
+
 /// Long inputs (66–200 KB): flush_block runs mid-call, blocks partially drained.
 pub fn long_inputs() -> Vec<Input> {
     vec![
